@@ -554,7 +554,12 @@ func TestC07(t *testing.T) {
 func TestC07L1(t *testing.T) {
 	cfg := kit.TxnCfg{MaxOps: 4, Named: true, RefBias: true, IndexBias: true, MaxRows: 6}
 	rapid.Check(t, func(t *rapid.T) {
-		runHistory(t, "C07", kit.ProfileDB, cfg, 15, func(l *l1, info *stepInfo) ([]string, bool, *mismatch) {
+		profile := kit.ProfileDB
+		if rapid.IntRange(0, 2).Draw(t, "refheavy") == 0 {
+			// reference-heavy schemas: garbage collection in several rounds, rows pruned more than once
+			profile = kit.ProfileRefs
+		}
+		runHistory(t, "C07", profile, cfg, 15, func(l *l1, info *stepInfo) ([]string, bool, *mismatch) {
 			nt := info.Excluded == "" && info.Model.Committed && (info.Model.GCDeleted > 0 || info.Model.WeakPruned > 0 || len(info.Ops) >= 2)
 			return []string{"l1:update-checked"}, nt, nil
 		})
